@@ -208,3 +208,74 @@ pub fn cmd_tabulate(jobs_path: &str, outdir: &str, threads: usize) {
   for h in handles { let r = h.join().unwrap(); tot.0 += r.0; tot.1 += r.1; tot.2 += r.2; tot.3 += r.3; tot.4 += r.4; tot.5 += r.5; }
   println!("{}", json!({"layouts": tot.0, "table_states": tot.1, "impl_steps": tot.2, "panics": tot.3, "truncated_layouts": tot.4, "shards": tot.5}));
 }
+
+// ---------------------------------------------------------------------------------------------
+// Random deep walks: long random histories of the real mapper over a (possibly large) alphabet with
+// up to `maxheld` keys held, well-formed and ill-formed events and occasional release_all, recorded
+// step by step with the state snapshot after each step. Complements the exhaustive tables (which
+// are bounded to small alphabets and 3-4 held keys); validated by TLC as traces (spec/MapperTrace.tla).
+struct Lcg(u64);
+impl Lcg {
+  fn next(&mut self) -> u64 { self.0 = self.0.wrapping_mul(6364136223846793005).wrapping_add(1442695040888963407); self.0 >> 33 }
+  fn below(&mut self, n: usize) -> usize { (self.next() % (n as u64)) as usize }
+}
+
+pub fn cmd_walk(jobs_path: &str) {
+  let text = std::fs::read_to_string(jobs_path).unwrap_or_else(|e| { eprintln!("cannot read {}: {}", jobs_path, e); std::process::exit(2) });
+  let root: Value = serde_json::from_str(&text).unwrap_or_else(|e| { eprintln!("bad jobs file: {}", e); std::process::exit(2) });
+  let out = std::io::stdout();
+  let mut out = std::io::BufWriter::new(out.lock());
+  for jv in root["jobs"].as_array().expect("jobs") {
+    let layout = if jv.get("fancy").is_some() {
+      match catch_unwind(|| load_value(&jv["fancy"])) { Ok(Ok(l)) => l, _ => continue }
+    } else {
+      match playout(&jv["layout"]) { Ok(l) => l, Err(e) => { eprintln!("bad layout in job: {}", e); std::process::exit(2) } }
+    };
+    // "auto": every key the layout mentions plus two foreign keys (a modifier and an ordinary key)
+    let keys: Vec<KeyCode> = if jv["keys"].as_str() == Some("auto") {
+      let mut ks: Vec<KeyCode> = vec![];
+      for m in &layout.mappings { for k in m.from.iter().chain(m.to.iter()) { if !ks.contains(k) { ks.push(*k); } } }
+      for k in [KeyCode::F5, KeyCode::RIGHTMETA].iter() { if !ks.contains(k) { ks.push(*k); } }
+      ks
+    } else { pkeys(&jv["keys"]).unwrap_or_else(|e| { eprintln!("bad keys: {}", e); std::process::exit(2) }) };
+    let maxheld = jv["maxheld"].as_u64().unwrap_or(5) as usize;
+    let steps = jv["steps"].as_u64().unwrap_or(1000) as usize;
+    let mut rng = Lcg(jv["seed"].as_u64().unwrap_or(1).wrapping_mul(2654435761).wrapping_add(12345));
+    let mut mapper = match catch_unwind(AssertUnwindSafe(|| Mapper::for_layout(&layout))) { Ok(m) => m, Err(_) => continue };
+    writeln!(out, "{}", json!({"c": "reset", "id": jv["id"], "layout": jlayout(&layout), "keys": jkeys(&keys), "maxheld": maxheld})).unwrap();
+    let mut held: Vec<KeyCode> = vec![];
+    // a given history is followed exactly (replay); otherwise the walk is random
+    let script: Option<Vec<Value>> = jv.get("history").and_then(|h| h.as_array().cloned());
+    let steps = script.as_ref().map(|h| h.len()).unwrap_or(steps);
+    for si in 0..steps {
+      let scripted: Option<&Value> = script.as_ref().map(|h| &h[si]);
+      let roll = match scripted { Some(e) => if e["t"].as_str() == Some("RA") { 0 } else { 50 }, None => rng.below(100) };
+      if roll < 1 {
+        // the tablet-mode reset
+        match catch_unwind(AssertUnwindSafe(|| mapper.release_all())) {
+          Ok(evs) => writeln!(out, "{}", json!({"c": "step", "e": {"t": "RA", "k": ""}, "ev": jevs(&evs), "rep": {"kind": "NoChange"}, "st": jstate(&mapper.verif_snapshot()), "panic": ""})).unwrap(),
+          Err(e) => { writeln!(out, "{}", json!({"c": "step", "e": {"t": "RA", "k": ""}, "ev": [], "rep": {"kind": "NoChange"}, "st": jstate(&mapper.verif_snapshot()), "panic": panic_msg(e)})).unwrap(); break; }
+        }
+        held.clear();
+        continue;
+      }
+      // mostly well-formed events, biased towards releasing when many keys are held; some ill-formed ones
+      let ev = if let Some(e) = scripted { pev(e).unwrap() } else if roll < 8 {
+        let k = keys[rng.below(keys.len())];
+        if held.contains(&k) { Pressed(k) } else { Released(k) }          // ill-formed
+      } else if !held.is_empty() && (held.len() >= maxheld || rng.below(100) < 45) {
+        let k = held[rng.below(held.len())];
+        Released(k)
+      } else {
+        let free: Vec<KeyCode> = keys.iter().cloned().filter(|k| !held.contains(k)).collect();
+        if free.is_empty() { continue; }
+        Pressed(free[rng.below(free.len())])
+      };
+      match &ev { Pressed(k) => { if !held.contains(k) { held.push(*k); } }, Released(k) => held.retain(|h| h != k) }
+      match catch_unwind(AssertUnwindSafe(|| mapper.step(ev.clone()))) {
+        Ok(r) => writeln!(out, "{}", json!({"c": "step", "e": jev(&ev), "ev": jevs(&r.events), "rep": jrep(&r.repeat), "st": jstate(&mapper.verif_snapshot()), "panic": ""})).unwrap(),
+        Err(e) => { writeln!(out, "{}", json!({"c": "step", "e": jev(&ev), "ev": [], "rep": {"kind": "NoChange"}, "st": jstate(&mapper.verif_snapshot()), "panic": panic_msg(e)})).unwrap(); break; }
+      }
+    }
+  }
+}
